@@ -123,6 +123,14 @@ def check(tier):
     inputs.append(("edge", b'grammar g; start = "' + b"k" * 64 + b'";'))
     inputs.append(("edge", b'grammar g; start = c c; c = c "*";'))
     inputs.append(("edge", b'grammar g\n@right <start = [start]>;\n'))
+    # large specifications: many distinct terminals, non-terminals, productions and bracketed bodies (every table of the front end
+    # must take them; a call that does not come back is a hang)
+    for n in (60, 90, 130, 200):
+        inputs.append(("size", ('grammar g; start = ' + " | ".join('"t%d"' % i for i in range(n)) + ";").encode()))
+    for n in (90, 150):
+        inputs.append(("size", ("grammar g; start = r0; " + " ".join('r%d = r%d "x";' % (i, i + 1) for i in range(n)) + ' r%d = "y";' % n).encode()))
+    inputs.append(("size", ("grammar g; start = " + " ".join('{"a%d" b%d}' % (i, i % 7) for i in range(100)) + "; " + " ".join('b%d = "b%d";' % (i, i) for i in range(7))).encode()))
+    inputs.append(("size", ("grammar g; start = " + " | ".join("TK%d" % i for i in range(95)) + "; " + " ".join('TK%d = "k%d";' % (i, i) for i in range(95))).encode()))
     texts = []
     for kind, b in inputs:
         try:
@@ -131,7 +139,7 @@ def check(tier):
             texts.append((kind, b.decode("latin-1")))     # still arbitrary code points; invalid UTF-8 goes through the CLI below
     reqs = []
     for kind, t in texts:
-        for op in ("spec", "ast", "spec_dfa"):
+        for op in (("spec", "ast") if kind == "size" else ("spec", "ast", "spec_dfa")):      # (the scanner of 200 definitions is the dependency's cost)
             reqs.append(({"op": op, "text": t}, kind, t))
     res = C.hook_map([r for r, _, _ in reqs], timeout_each=20)
     bad, nil_ok, slow = [], [], []
